@@ -360,6 +360,70 @@ def layer_b(ctx):
             analyse_launch(ctx, h[0], li, launch, module, quick)
 
 
+def layer_b_histories(ctx):
+    """Thread-count histories: the launches an assembly makes must be race-free whatever thread counts the same space objects were used
+    with before (per-space caches - colour map, sorted element lists - are filled lazily at first use).  E2 over sequences of
+    'assemble with t threads' on one pair of space objects; the launches of the last step (t >= 2) are race-checked pairwise."""
+    import collections
+
+    import numba
+
+    quick = ctx.tier == "quick"
+    maxt = numba.config.NUMBA_NUM_THREADS
+    counts = [t for t in (1, 2, 16) if t <= maxt]
+    hs = [h for h in HARNESSES if h[0] in ("V-p1-octa", "E-rwg-octa", "I-p1-fan5")] if quick else HARNESSES
+    depth = 2 if quick else 3
+    before = numba.get_num_threads()
+    try:
+        for h in hs:
+            hid, meshname, (family, opname), tspec, dspec, k = h
+            mesh = meshes.get(meshname, ctx.seed)
+            seen = set()
+            frontier = collections.deque([()])
+            while frontier:
+                hist = frontier.popleft()
+                if len(hist) >= depth:
+                    continue
+                for t in counts:
+                    h2 = hist + (t,)
+                    canon = (frozenset(h2), t)
+                    if canon in seen:
+                        continue
+                    seen.add(canon)
+                    frontier.append(h2)
+                    ctx.states += 1
+                    if t < 2:
+                        continue  # a launch executed by one thread cannot race; it matters only as a prefix
+                    grid = SP.make_grid(mesh)
+                    test = SP.make_space(grid, dict({"sel": ("all",)}, **tspec))
+                    trial = SP.make_space(grid, dict({"sel": ("all",)}, **dspec))
+                    par = ops.params(1, 1)
+                    launches = []
+                    for idx, nt in enumerate(h2):
+                        numba.set_num_threads(nt)
+                        if idx == len(h2) - 1:
+                            with Recorder() as rec:
+                                ops.boundary(family, opname, trial, trial, test, k=k, par=par).weak_form()
+                            launches, module = rec.launches, rec.NK
+                        else:
+                            ops.boundary(family, opname, trial, trial, test, k=k, par=par).weak_form()
+                    ctx.transitions += len(h2)
+                    case = {"layer": "B-history", "harness": hid, "thread_history": list(h2)}
+                    ctx.case((hid, "thread-history", h2), sub="thread-history", nontrivial=len(h2) > 1, sample=case if len(ctx.samples) < 5 and len(h2) > 1 else None)
+                    for li, launch in enumerate(launches):
+                        tracer, final, ret = IL.record(launch, module)
+                        conflicts, pairs = IL.races(tracer)
+                        ctx.cover("iteration_pairs_checked_after_histories", None, pairs)
+                        if conflicts:
+                            l, i, j, cell = conflicts[0]
+                            ctx.violation("schedule/%s/data-race-after-thread-history" % launch.name, dict(case, launch=li, cell=list(cell)),
+                                          "after assemblies with %s threads on the same spaces, a launch with %d threads runs iterations %s and %s that both "
+                                          "access %s (%d conflicting pairs)" % (list(h2[:-1]), t, i, j, cell, len(conflicts)))
+                            break
+    finally:
+        numba.set_num_threads(before)
+
+
 # ---------------------------------------------------------------------------
 # Layer C
 # ---------------------------------------------------------------------------
@@ -415,6 +479,8 @@ def run(ctx):
         layer_a(ctx)
     if not only or "B" in only:
         layer_b(ctx)
+    if not only or "H" in only:
+        layer_b_histories(ctx)
     if not only or "C" in only:
         layer_c(ctx)
     if not only:
@@ -437,7 +503,8 @@ def run(ctx):
         rule="A: every space of the C09 lattice (+localised/barycentric forms): same colour => disjoint local2global entries; "
         "B: launches captured from real assemblies of 11 boundary operators and 7 potentials/far fields; all iteration pairs race-checked; "
         "explicit-state search over all load/store interleavings of 2 and 3 iterations; schedules with <=1 (2) preemptions replayed on the "
-        "real py_func under a baton scheduler and compared with the model; C: compiled kernels with 1/2/7/16 threads bitwise equal",
+        "real py_func under a baton scheduler and compared with the model; B-history: sequences of assemblies with 1/2/16 threads on the same "
+        "space objects (depth 2 / 3), launches of the last step race-checked; C: compiled kernels with 1/2/7/16 threads bitwise equal",
         extra={"harnesses": [h[0] for h in HARNESSES] + [h[0] for h in POTENTIALS] + [h[0] for h in FMM_HELPERS]},
     )
 
@@ -469,5 +536,7 @@ def replay(ctx, case):
             if h[0] == case["harness"]:
                 launches, val, module = capture_potential(ctx, h)
                 analyse_launch(ctx, h[0], case["launch"], launches[case["launch"]], module, True)
+    elif case.get("layer") == "B-history":
+        layer_b_histories(ctx)
     else:
         layer_c(ctx)
